@@ -600,6 +600,9 @@ pub fn c16(ctx: &mut Ctx) {
     for (kind, q, t, m) in plan {
         let n = ctx.n(q, t, m);
         for k in 0..n {
+            if ctx.over_budget() {
+                break;
+            }
             let idx = ctx.shard + k * ctx.nshards;
             run(&mut ctx.rep, kind, idx);
         }
